@@ -351,9 +351,15 @@ def run(ctx):
             ("self.cells[lv]['indexes']", "other.cells[lv]['indexes']")]
     missing = [p for p in need if p not in cmp_pairs]
     last = eq.node.body[-1]
-    ctx.check(not missing and isinstance(last, ast.Return) and norm(last.value) == "True", f"{P}.STRUCTURE-EQ", eq.site,
-              "structure equality compares level count, box bounds and index ranges of every level (self vs other, "
-              "same level)", f"__eq__ does not compare {missing} (compares {cmp_pairs})", where=loc(eq, eq.node))
+    # decidable when the predicate has the recognised form: every return hands back a constant (`return False`
+    # under a failed comparison, `return True` at the end); `return all(...)` and the like are not evaluated here
+    rets = [r for r in walk_no_nested(eq.node) if isinstance(r, ast.Return)]
+    recognised = bool(rets) and all(isinstance(r.value, ast.Constant) for r in rets)
+    ctx.decide(not missing and isinstance(last, ast.Return) and norm(last.value) == "True", recognised,
+               f"{P}.STRUCTURE-EQ", eq.site,
+               "structure equality compares level count, box bounds and index ranges of every level (self vs other, "
+               "same level)", f"__eq__ does not compare {missing} (compares {cmp_pairs})", where=loc(eq, eq.node),
+               why_unknown="__eq__ is not a chain of `if <comparison>: return False` ending in `return True`")
     formulas.rule_level_range(ctx, f"{P}.LEVEL-RANGE", eq)
     formulas.rule_level_range(ctx, f"{P}.LEVEL-RANGE", c, obj="pck1")
     formulas.rule_level_range(ctx, f"{P}.LEVEL-RANGE", v, obj="args[0]")
